@@ -314,16 +314,16 @@ def numberForwards (o : Outgoing) (filterIdx : Nat) :
                        lastPkid := if pk = MAX_INFLIGHT then 0 else pk }
     numberForwards o' filterIdx rest (acc ++ [Notif.forward { p with pkid := pk } cur])
 
-/-- `register_ack`: the head is popped before it is compared -/
+/-- `register_ack`: the head is popped only if it is the acknowledged id -/
 def Outgoing.registerAck (o : Outgoing) (pkid : Nat) : Outgoing × Bool :=
   match o.inflight with
   | [] => (o, false)
-  | (h, _, _) :: rest => ({ o with inflight := rest }, h = pkid)
+  | (h, _, _) :: rest => if h = pkid then ({ o with inflight := rest }, true) else (o, false)
 
 def Outgoing.registerPubcomp (o : Outgoing) (pkid : Nat) : Outgoing × Bool :=
   match o.unackedPubrels with
   | [] => (o, false)
-  | h :: rest => ({ o with unackedPubrels := rest }, h = pkid)
+  | h :: rest => if h = pkid then ({ o with unackedPubrels := rest }, true) else (o, false)
 
 /-- `retransmission_map`: first cursor per filter index among inflight entries that have one -/
 def retransmissionMap : List (Nat × Nat × Option Cursor) → List (Nat × Cursor) → List (Nat × Cursor)
